@@ -5,7 +5,7 @@ import refmon
 import refrun
 from machgen import Session
 from vcheck import Suite
-from vlib import Rng
+from vlib import Case, Rng
 
 ID = "C08"
 PROPS_MODULE = "AmqModel.Props.C08"
@@ -50,6 +50,31 @@ def gen(tier, seed):
     return cases
 
 
+def e2e_monitor(case, il, sl):
+    d = {}
+    for l in il:
+        if l and not l.startswith("#"):
+            d[l.split()[0]] = l.split()[1:]
+    if "opened" not in d:
+        return ("connection did not open: %s" % il[:2], "c08-e2e-open")
+    if "after-close" not in d or d["after-close"] == ["no-close-frame"]:
+        return ("Connection::close did not put Connection.Close on the wire: %s" % il, "c08-e2e-noclose")
+    if d["after-close"]:
+        return ("after its Connection.Close the client wrote more: %s (type@channel; 8 = heartbeat) - Close must be the last frame it ever writes" % " ".join(d["after-close"]), "c08-e2e-after-close")
+    if d.get("close") != ["ok"]:
+        return ("the server answered CloseOk (late) and Connection::close reports %s" % " ".join(d.get("close", [])), "c08-e2e-result")
+    return None
+
+
+def gen_e2e(tier, seed):
+    cases = [Case("s1", ["run 1 1 slowclose 2600"], {"keep_prefix": 0})]
+    if tier != "quick":
+        cases += [Case("s2", ["run 1 60 slowclose 3300"], {"keep_prefix": 0}), Case("s3", ["run 2 2 slowclose 5200"], {"keep_prefix": 0}), Case("s4", ["run 0 0 slowclose 1500"], {"keep_prefix": 0})]
+    return cases
+
+
 def suites(tier, seed):
-    return [Suite("sessions", "machine", lambda: gen(tier, seed), monitor=monitor, nontrivial=nontrivial, canon=mg.canon_nondet, candidate_ok=mg.candidate_ok,
+    return [Suite("slow-close-e2e", "hbe2e", lambda: gen_e2e(tier, seed), monitor=e2e_monitor, nontrivial=lambda c, il: True, compare=False, shards=4, timeout=120,
+                  rule="real connection with heartbeats (1 s; thorough: 1/60, 2/2, off) over the mock transport; Connection::close while the broker takes 2.6 heartbeat intervals to answer CloseOk (it keeps sending heartbeats meanwhile): nothing may follow Connection.Close on the wire (the tx heartbeat timer fires during the wait), close returns Ok"),
+            Suite("sessions", "machine", lambda: gen(tier, seed), monitor=monitor, nontrivial=nontrivial, canon=mg.canon_nondet, candidate_ok=mg.candidate_ok,
                   rule="random sessions ending in a client- or server-initiated connection close: 0-6 open channels, consumers, calls in flight, data still buffered behind a transport that takes few bytes, submissions racing the close, frames (heartbeat) arriving right after the close, every reply-code class and random texts")]
